@@ -37,7 +37,8 @@ func (s *Set) String() string {
 	codes, space := "[", ""
 	node := s.Head.Forward
 	for node != nil && node.Forward != nil {
-		for code := node.Begin; code <= node.End; code++ {
+		// int64: code++ must not wrap around when the interval ends at math.MaxInt32
+		for code := int64(node.Begin); code <= int64(node.End); code++ {
 			codes += space + fmt.Sprintf("%v", code)
 			space = " "
 		}
